@@ -135,7 +135,7 @@ func runC15(c *Ctx) {
 		n := runBufDisc(c, p, "C15.append")
 		c.R.Floor("C15.append", p.Cfg.Name, n, 90)
 		ruleEndian(c, p, "C15.endian")
-		ruleGrowByAppend(c, p)
+		ruleGrowByAppend(c, p, "C15.fresh")
 		ruleReaderSource(c, p, "C15.source")
 	}
 	c.R.Assumptions = append(c.R.Assumptions,
@@ -206,6 +206,15 @@ func ruleEndian(c *Ctx, p *core.Program, rule string) {
 			if recv.Obj().Name() != "littleEndian" {
 				c.R.Bad(rule, key, cfg, p.Pos(call.Pos()), "a column codec uses "+recv.Obj().Name()+": ClickHouse's wire format and the memory image copied by the default build are little endian")
 				continue
+			}
+			// accessor width = width of the byte window it is given
+			if w := accessorBytes(f.Name()); w > 0 && len(call.Common().Args) >= 2 {
+				if sl, ok := call.Common().Args[1].(*ssa.Slice); ok {
+					if win := windowBytes(sl); win > 0 && win != w {
+						c.R.Bad(rule, key+"/width", cfg, p.Pos(call.Pos()), sprintf("%s moves %d bytes but is given a %d-byte element window: the upper bytes of every element are dropped (or read from the neighbour)", f.Name(), w, win))
+						continue
+					}
+				}
 			}
 			if !strings.HasPrefix(fn.Name(), "bin") {
 				c.R.Ok(rule, key, cfg, p.Pos(call.Pos()), "LittleEndian").Trivial = true
@@ -318,8 +327,7 @@ func storedFieldOffset(sizes types.Sizes, call *ssa.Call) int64 {
 }
 
 // ruleGrowByAppend (C15.fresh): fixed-width decoders extend the column by append only.
-func ruleGrowByAppend(c *Ctx, p *core.Program) {
-	rule := "C15.fresh"
+func ruleGrowByAppend(c *Ctx, p *core.Program, rule string) {
 	c.R.Rule(rule, "in DecodeColumn of every slice-typed fixed-width column, the value stored back to the column is an append chain rooted at the column's previous value (new rows come from append, i.e. zeroed or explicitly given) - never a re-slice into spare capacity, whose stale contents would differ between a fresh and a reset-after-use column")
 	cfg := p.Cfg.Name
 	n := 0
@@ -390,4 +398,44 @@ func resliceInChain(v ssa.Value, d int, seen map[ssa.Value]bool) *ssa.Slice {
 		return resliceInChain(x.X, d+1, seen)
 	}
 	return nil
+}
+
+// accessorBytes: Uint16/PutUint16 -> 2, ...
+func accessorBytes(name string) int64 {
+	name = strings.TrimPrefix(name, "Put")
+	switch name {
+	case "Uint16":
+		return 2
+	case "Uint32":
+		return 4
+	case "Uint64":
+		return 8
+	}
+	return 0
+}
+
+// windowBytes: constant length of b[i:i+k] or b[:k] / b[a:b] with constant bounds; 0 when unknown.
+func windowBytes(sl *ssa.Slice) int64 {
+	if sl.High == nil {
+		return 0
+	}
+	if hk, ok := core.ConstInt(sl.High); ok {
+		lk := int64(0)
+		if sl.Low != nil {
+			var okl bool
+			if lk, okl = core.ConstInt(sl.Low); !okl {
+				return 0
+			}
+		}
+		return hk - lk
+	}
+	if bo, ok := sl.High.(*ssa.BinOp); ok && bo.Op == token.ADD && sl.Low != nil {
+		if k, okc := core.ConstInt(bo.Y); okc && bo.X == sl.Low {
+			return k
+		}
+		if k, okc := core.ConstInt(bo.X); okc && bo.Y == sl.Low {
+			return k
+		}
+	}
+	return 0
 }
